@@ -1,8 +1,8 @@
 (* C19 - work is bounded by the size of the input; every parser terminates.  PARTIAL: a cost semantics
    (visit / iteration counts) is proved; wall-clock time and the cost of library primitives are not modelled. *)
 From Coq Require Import NArith ZArith List Bool.
-From PTQ Require Import Base.Result Base.Bytes Base.Bits Base.Sha256 Model.Cell Model.Boc Model.Cost
-  Spec.BocFormat Spec.BocProps Proofs.CostProofs.
+From PTQ Require Import Base.Result Base.Bytes Base.Bits Base.Sha256 Model.Cell Model.Builder Model.Boc Model.Cost
+  Model.Hashmap Spec.BocFormat Spec.BocProps Proofs.CostProofs Proofs.DictCost.
 Import ListNotations.
 
 (* the instrumented traversal computes the same order *)
@@ -42,3 +42,164 @@ Example C19_diamond :
   | Err _ => False
   end.
 Proof. vm_compute. split; reflexivity. Qed.
+
+(* ---- dictionary parser (Proofs/DictCost.v): parse_edge_c = parse_edge instrumented with (edge visits,
+   visits that end without an entry: a non-ordinary cell, or the empty key) ---- *)
+
+(* the instrumented dictionary parser computes the same result *)
+Theorem C19_dict_same : forall fuel ty s m prefix,
+  rmap fst (parse_edge_c fuel ty s m prefix) = parse_edge fuel ty s m prefix.
+Proof. exact parse_edge_c_same. Qed.
+Print Assumptions C19_dict_same.
+
+(* every walk is a binary tree: visits + 1 = 2 * (entries returned + empty terminals) *)
+Theorem C19_dict_visits_exact : forall fuel ty s m prefix ls v z,
+  parse_edge_c fuel ty s m prefix = Ok (ls, (v, z)) ->
+  (v + 1 = 2 * (length ls + z))%nat.
+Proof. exact dict_visits_exact. Qed.
+Print Assumptions C19_dict_visits_exact.
+
+(* hence linear in what the walk yields, and at most 2 * entries when no terminal is empty *)
+Theorem C19_dict_visits_linear : forall fuel ty s m prefix ls v z,
+  parse_edge_c fuel ty s m prefix = Ok (ls, (v, z)) ->
+  (v <= 2 * (length ls + z))%nat /\ (z = O -> v <= 2 * length ls)%nat.
+Proof. exact dict_visits_linear. Qed.
+Print Assumptions C19_dict_visits_linear.
+
+(* output-linear work: a dictionary without non-ordinary cells, key width >= 1, that parses to k entries
+   costs exactly 2k - 1 edge visits, however its cells are shared (F32) *)
+Theorem C19_dict_visits_output : forall fuel ty bits refs n ls v z,
+  cell_all_ord (Cell ty bits refs) = true -> (0 < n)%Z ->
+  parse_edge_c fuel ty (mkS bits refs) n [] = Ok (ls, (v, z)) ->
+  (1 <= length ls)%nat /\ v = (2 * length ls - 1)%nat /\ z = O.
+Proof. exact dict_visits_output_exact. Qed.
+Print Assumptions C19_dict_visits_output.
+
+(* the recursion depth is at most the key width + 1: any two fuels above the remaining key width give the
+   same result; the constant fuel bounds nothing *)
+Theorem C19_dict_fuel_irrelevant : forall f1 f2 ty s m prefix,
+  (Z.to_nat m < f1)%nat -> (Z.to_nat m < f2)%nat ->
+  parse_edge f1 ty s m prefix = parse_edge f2 ty s m prefix.
+Proof. exact parse_edge_fuel_irrelevant. Qed.
+Print Assumptions C19_dict_fuel_irrelevant.
+
+Theorem C19_dict_parse_hashmap_fuel : forall ty s n, (n <= 1023)%Z ->
+  parse_hashmap ty s n = parse_edge (S (Z.to_nat n)) ty s n [].
+Proof. exact parse_hashmap_fuel. Qed.
+Print Assumptions C19_dict_parse_hashmap_fuel.
+
+(* the work is bounded by the key width alone as well: at most 2^(m+1) - 1 visits *)
+Theorem C19_dict_visits_depth : forall fuel ty s m prefix ls v z,
+  parse_edge_c fuel ty s m prefix = Ok (ls, (v, z)) ->
+  (0 <= m)%Z /\ (v + 1 <= 2 ^ (Z.to_nat m + 1))%nat.
+Proof. exact dict_visits_depth. Qed.
+Print Assumptions C19_dict_visits_depth.
+
+(* no count-field-driven descent: a label announcing more bits than the remaining key is refused at once *)
+Theorem C19_dict_label_too_long : forall s m l suffix s1,
+  deserialize_hml s m = Ok (l, suffix, s1) -> (m < Z.of_nat l)%Z ->
+  forall fuel ty prefix, parse_edge (S fuel) ty s m prefix = Err EValue.
+Proof. intros s m l suffix s1 H1 H2. exact (proj1 (PTQ.Proofs.HmParse.label_too_long_rejected s m l suffix s1 H1 H2)). Qed.
+Print Assumptions C19_dict_label_too_long.
+
+(* F32: 7 distinct cells, both references of every fork the same child: a Hashmap 6 of 64 distinct keys,
+   parsed with 127 = 2 * 64 - 1 visits *)
+Theorem C19_dict_shared_chain :
+  length (dict_chain_cells 6) = 7%nat /\
+  cell_all_ord (dict_chain 6) = true /\
+  match parse_edge_c parse_fuel ty_ordinary (begin_parse (dict_chain 6)) 6 [] with
+  | Ok (ls, (v, z)) => length ls = 64%nat /\ v = 127%nat /\ z = 0%nat /\ NoDup (map fst ls)
+  | Err _ => False
+  end.
+Proof. exact dict_chain_6. Qed.
+Print Assumptions C19_dict_shared_chain.
+
+(* the same chain ending in a pruned-branch cell: 127 visits, no entry, 64 empty terminals *)
+Theorem C19_dict_shared_chain_pruned :
+  parse_edge_c parse_fuel ty_ordinary (begin_parse (dict_chain_pruned 6)) 6 [] = Ok ([], (127, 64))%nat.
+Proof. exact dict_chain_pruned_6. Qed.
+Print Assumptions C19_dict_shared_chain_pruned.
+
+From PTQ Require Import Model.Tl Spec.TlSpec Gen.TlSchemaTable Proofs.TlProofs Proofs.TlCost.
+
+(* ---- TL deserializer (Model/Tl.v; Proofs/TlCost.v).  [dstep] is one field of TlSchemas.deserialize with an
+   ARBITRARY recursive call [rec]: a statement about it holds at every fuel ---- *)
+From Coq Require Import String.   (* from here on [length] is String.length: lists use List.length *)
+
+(* an accepted vector field returns exactly as many elements as its 4-byte count announces, and that count is at
+   most the number of input bytes after the count *)
+Theorem C19_tl_vector_bounded : forall tbl rec d boxed c i fs a el en nm r,
+  a_ty a = TVector el en nm -> present_m fs a = Ok true ->
+  dstep tbl rec d boxed c (Ok (i, fs)) a = Ok r ->
+  exists i2 items, r = (i2, fs ++ [(a_field a, TVVec items)]) /\
+    List.length items = N.to_nat (of_le (bslice d i (i + 4))) /\
+    (i + 4 + List.length items <= List.length d)%nat.
+Proof. exact vector_step_bounded. Qed.
+Print Assumptions C19_tl_vector_bounded.
+
+(* a count larger than the remaining input is refused before any element is parsed: same error for every [rec] *)
+Theorem C19_tl_vector_reject : forall tbl rec d boxed c i fs a el en nm,
+  a_ty a = TVector el en nm -> present_m fs a = Ok true ->
+  (List.length d - (i + 4) < N.to_nat (of_le (bslice d i (i + 4))))%nat ->
+  dstep tbl rec d boxed c (Ok (i, fs)) a = Err ETl.
+Proof. exact vector_step_reject. Qed.
+Print Assumptions C19_tl_vector_reject.
+
+(* the same for the deserializer, on a bare vector, at every fuel *)
+Theorem C19_tl_deser_vector_bounded : forall tbl fuel d id nm cls fld el en named v j,
+  deser tbl fuel d false (Some (vec_ctor id nm cls fld el en named)) = Ok (v, j) ->
+  exists items, v = TVObj "" [(fld, TVVec items)] /\
+    List.length items = N.to_nat (of_le (bslice d 0 4)) /\ (4 + List.length items <= List.length d)%nat.
+Proof. exact deser_vector_bounded. Qed.
+Print Assumptions C19_tl_deser_vector_bounded.
+
+Theorem C19_tl_deser_vector_reject : forall tbl d id nm cls fld el en named,
+  (List.length d - 4 < N.to_nat (of_le (bslice d 0 4)))%nat ->
+  forall fuel, deser tbl (S fuel) d false (Some (vec_ctor id nm cls fld el en named)) = Err ETl.
+Proof. exact deser_vector_reject. Qed.
+Print Assumptions C19_tl_deser_vector_reject.
+
+Theorem C19_tl_deser_vector_reject_any_fuel : forall tbl d id nm cls fld el en named,
+  (List.length d - 4 < N.to_nat (of_le (bslice d 0 4)))%nat ->
+  forall fuel, exists e, deser tbl fuel d false (Some (vec_ctor id nm cls fld el en named)) = Err e.
+Proof. exact deser_vector_reject_any_fuel. Qed.
+Print Assumptions C19_tl_deser_vector_reject_any_fuel.
+
+(* an accepted bytes / string field: the byte string / str (or the list of concatenated objects) it returns is no
+   longer than the input that follows the first prefix byte, whatever length the prefix announces *)
+Theorem C19_tl_bytes_bounded : forall tbl rec d boxed c i fs a r,
+  rec_raw rec -> rec_nz rec ->
+  a_ty a = TBytes \/ a_ty a = TString -> present_m fs a = Ok true ->
+  dstep tbl rec d boxed c (Ok (i, fs)) a = Ok r ->
+  exists val, snd r = fs ++ [(a_field a, val)] /\
+    (forall l, val = TVBytes l \/ val = TVStr l -> (List.length l <= List.length d - (i + 1))%nat) /\
+    (forall l, val = TVVec l -> (List.length l <= List.length d - (i + 1))%nat).
+Proof. exact bytes_step_bounded. Qed.
+Print Assumptions C19_tl_bytes_bounded.
+
+Theorem C19_tl_deser_bytes_bounded : forall tbl fuel d id nm cls fld ty v j,
+  by_id tbl [] = None -> ty = TBytes \/ ty = TString ->
+  deser tbl fuel d false (Some (one_ctor id nm cls fld ty)) = Ok (v, j) ->
+  exists val, v = TVObj "" [(fld, val)] /\
+    (forall l, val = TVBytes l \/ val = TVStr l -> (List.length l <= List.length d - 1)%nat) /\
+    (forall l, val = TVVec l -> (List.length l <= List.length d - 1)%nat).
+Proof. exact deser_bytes_bounded. Qed.
+Print Assumptions C19_tl_deser_bytes_bounded.
+
+(* GLOBAL, every fuel: in the value returned for an n-byte input, every vector, list of concatenated objects, byte
+   string, str and hex str - at any depth - has at most n elements.  PARTIAL with respect to "consumed <= input":
+   that is false of this deserializer (TlCost.bytes_truncated, TlCost.fixed_past_end: slices are truncated and the
+   offset runs past the data), and the number of scalar fields is bounded by the schema, not by the input *)
+Theorem C19_tl_lists_bounded : forall tbl, by_id tbl [] = None ->
+  forall fuel d boxed ctor v j, deser tbl fuel d boxed ctor = Ok (v, j) -> tv_bounded (List.length d) v.
+Proof. exact deser_lists_bounded. Qed.
+Print Assumptions C19_tl_lists_bounded.
+
+Theorem C19_tl_table_lists_bounded : forall fuel d v j,
+  deserialize tl_table fuel d = Ok (v, j) -> tv_bounded (List.length d) v.
+Proof. exact deserialize_lists_bounded. Qed.
+Print Assumptions C19_tl_table_lists_bounded.
+
+Example C19_tl_huge_count : forall fuel,
+  deser tl_table (S fuel) [255; 255; 255; 255; 0; 0; 0; 0]%N false (Some int_vec) = Err ETl.
+Proof. exact vector_huge_count. Qed.
